@@ -576,6 +576,11 @@ func validateV2CurrencyOverflow(ms *MidState, txn types.V2Transaction) error {
 		add(ms.base.V2FileContractTax(fc))
 	}
 
+	// the input side is summed too (together with the rollovers below) when
+	// inputs are compared with outputs
+	for _, sci := range txn.SiacoinInputs {
+		add(sci.Parent.SiacoinOutput.Value)
+	}
 	for _, sco := range txn.SiacoinOutputs {
 		add(sco.Value)
 	}
